@@ -80,7 +80,8 @@ def run(prog: Program, chk: Check):
         # drop the normal out-edges of completed sends / reports: what still reaches the loop head is unsent + unreported
         ef = lambda e: not (e.src in done and e.kind != "exc")
         gs = flow.guard_states(g, edge_filter=ef)
-        goal_inelig = guards.parse(f"not ({hdr_p}.dest_mod_id == 0 or {rv}.mod_id == {hdr_p}.dest_mod_id or {rv}.is_logger)")
+        # ineligible = excluded by the destination filter, or no longer connected (removed earlier in this very delivery)
+        goal_inelig = guards.parse(f"not ({hdr_p}.dest_mod_id == 0 or {rv}.mod_id == {hdr_p}.dest_mod_id or {rv}.is_logger) or {rv}.conn not in self.modules")
         body_ids = {n.id for n in g.nodes if n.ast is not None and any(a is lp for a in ancestors(n.ast))}
         nback = 0
         for e in g.pred[head.id]:
